@@ -48,12 +48,25 @@ def hook_present():
     return True
 
 
+def rev_hook_present():
+    try:
+        return 'verifYield("caller.appended"' in open(os.path.join(hv.REPO, "rpc", "plugins", "reverse", "caller.go")).read()
+    except OSError:
+        return False
+
+
 def build_hooked(name):
     """hv.build_harness builds with -tags verif only; the hooked executor needs one more tag."""
     hd = os.path.join(hv.V, "harness")
     out = os.path.join(hv.HBIN, "hv-%shook" % name)
     with hv.Lock("go" + hv.ALT):
-        cmd = ["go", "build", "-tags", "verif c09c10hook", "-o", out]
+        tags = "verif c09c10hook"
+        try:
+            if 'verifYield("caller.appended"' in open(os.path.join(hv.REPO, "rpc", "plugins", "reverse", "caller.go")).read():
+                tags += " c09revhook"
+        except OSError:
+            pass
+        cmd = ["go", "build", "-tags", tags, "-o", out]
         cmd[2:2] = hv.cover_flags()
         if hv.ALT:
             cmd.append("-modfile=" + os.path.join(hv.BUILD, "alt-" + hv.ALT, "go.mod"))
@@ -231,6 +244,20 @@ def gen_rev_abandon_case(rng):
             "steps": steps, "n": n, "methods": ["echo"] * n, "warmups": 0, "unanswered": quitters, "abandon": True}
 
 
+def gen_rev_answer_before_registered_case(rng):
+    """hook (yield point caller.appended of rpc/plugins/reverse): a call is queued for its provider and the caller is held
+    right there; the provider fetches the batch, executes and answers; only then does the caller go on.  The answer
+    arrived while the call was in flight: the caller must get it."""
+    n = rng.choice([1, 2, 3])
+    steps = [["hold_appended"]]
+    for k in range(n):
+        steps.append(["invoke", k, "pa", 0, 0])
+    steps += [["sleep", 60], ["fetch", "pa"], ["end", "pa", [["k", k] for k in range(n)]], ["sleep", 20], ["release_appended"]]
+    steps += [["await_ret", k, 1500] for k in range(n)]
+    return {"fam": "rev-script", "kind": "reverse", "rev": {"providers": ["pa"], "mode": "script", "caller_timeout_ms": 1000},
+            "steps": steps, "n": n, "dest": ["pa"] * n, "unanswered": [], "strays": 0, "dups": 0, "hook": True, "forced": "answer-before-registered"}
+
+
 def gen_first_select_case(cid, transport):
     """hook: Send is held with caller 0's request in hand, so callers 1 and 2 sit in their FIRST select with nobody to take
     their requests; caller 1 is cancelled there (case <-ctx.Done(): c.delete(index) of the first select); then Send goes on
@@ -338,6 +365,9 @@ def gen_cases(ctx, hook):
         add(gen_rev_mixed_case(rng))
     for _ in range(4 if quick else 20):
         add(gen_rev_abandon_case(rng))
+    if hook and rev_hook_present():
+        for _ in range(2 if quick else 6):
+            add(gen_rev_answer_before_registered_case(rng))
     if hook:
         for t in ("tcp", "ws", "udp"):
             add(gen_first_select_case(0, t))
